@@ -707,7 +707,9 @@ Fixpoint ser_obj (w : world) (v : value) (ns qover xsi : ostr) (k : list tree ->
         match a with
         | AMeta m =>
             let q := match truthy qover with Some q => q | None => m_qname m end in
-            let ns' := target_uri q in
+            (* nested models inherit the namespace of this class's (cached) metadata, not the
+               one of the element's qname (/repo ad469e5) *)
+            let ns' := m_ns m in
             (fix fields_loop (vars : list var) (fs : list value) (attrs kids : list tree) {struct fs} : script :=
                match fs, vars with
                | V _ items :: fr, vr :: vrest =>
